@@ -103,10 +103,10 @@ fn gen_roundtrip(ctx: &GenCtx) -> Vec<Value> {
             "cap": *p.pick(&[1usize,2,3,4,5,8,64,512,8192,8192]), "consumer": p.consumer(false).to_json(),
             "variant": *p.pick(&VARIANTS), "crc_mode": crc_mode}));
     };
-    for len in 0..=sweep_to {
+    for len in 0..=(if ctx.first_round() { sweep_to } else { 0 }) {
         push(len, &mut plans, &mut idx);
     }
-    if ctx.tier == Tier::Quick {
+    if ctx.tier == Tier::Quick && ctx.first_round() {
         for len in (1100..=4096).filter(|l| l % 48 <= 1 || l % 48 == 47) {
             push(len, &mut plans, &mut idx);
         }
